@@ -433,13 +433,41 @@ func runMutants(vd, prop string) map[string]any {
 			det++
 		}
 	}
+	// behaviour-preserving variants: the rule set must stay silent on them
+	benign, _ := filepath.Glob(filepath.Join(vd, "benign", "*.diff"))
+	sort.Strings(benign)
+	type bres struct {
+		Diff   string `json:"diff"`
+		Result string `json:"result"`
+	}
+	var bresults []bres
+	silent := 0
+	for _, d := range benign {
+		cmd := exec.Command(exe, "-p", prop, "-overlay-diff", d, "-no-evidence")
+		cmd.Env = append(os.Environ(), "VERIF_DIR="+vd)
+		cmd.CombinedOutput()
+		code := cmd.ProcessState.ExitCode()
+		br := bres{Diff: strings.TrimPrefix(d, vd+"/")}
+		switch code {
+		case 0:
+			br.Result = "silent"
+			silent++
+		case 3:
+			br.Result = "skipped (does not apply to the current tree)"
+			silent++
+		default:
+			br.Result = "FALSE ALARM"
+		}
+		bresults = append(bresults, br)
+	}
+	fmt.Printf("  self-test: silent on %d/%d behaviour-preserving variants\n", silent, len(benign))
 	fmt.Printf("  self-test: %d/%d seeded variants reported\n", det, app)
 	for _, r := range results {
 		if r.Result != "detected" {
 			fmt.Printf("    %s: %s\n", r.Diff, r.Result)
 		}
 	}
-	return map[string]any{"applied": app, "detected": det, "results": results}
+	return map[string]any{"applied": app, "detected": det, "results": results, "benign_variants": bresults, "benign_silent": silent}
 }
 
 func doReplay(path string) int {
